@@ -826,6 +826,14 @@ class Hist:
 
     def do_remove_metabolites(self, a, op, env):
         ms = [self.met(a, i) for i in op["ms"]]
+        if op.get("foreign") and len(self.actors) > 1:
+            # the same-named metabolite object of ANOTHER live model stands for this model's own one (as in remove_reactions);
+            # whatever happens, the other model is not touched
+            for j, i in enumerate(op["ms"]):
+                others = [b for b in self.actors if b is not a and b.model.metabolites.has_id(i)]
+                if others:
+                    ms[j] = others[op["foreign"] % len(others)].model.metabolites.get_by_id(i)
+                    self.stats["probe:remove_metabolites_given_another_models_object"] += 1
         if op.get("repeat"):
             ms = ms + ms[:1]  # the same metabolite listed twice: removed once
             self.stats["probe:remove_metabolites_repeated_entry"] += 1
@@ -1927,6 +1935,8 @@ def gen_op(rng, H, sw):
                   via=rng.choice(["model", "met"]), single=rng.random() < 0.3)
         if rng.random() < 0.1:
             op.update(repeat=True, via="model", single=False)
+        elif len(H.actors) > 1 and rng.random() < 0.15:
+            op.update(foreign=rng.randint(1, 2), via="model")
     elif k == "add_boundary":
         typ = rng.choice(["exchange", "demand", "sink", "custom"])
         op.update(m=mid(), type=typ)
